@@ -213,6 +213,10 @@ func (c *FnCtx) libraryModel(x *ssa.Call, obj *types.Func, common *ssa.CallCommo
 		arr := sel(h, sBase(sl))
 		c.define(Term{fmt.Sprintf("(= (= %s 0) (forall ((i! Int)) (=> (and (<= 0 i!) (< i! %s)) (= (select %s (idx %s i!)) 0))))",
 			e.S, sLen(sl).S, arr.S, sOff(sl).S), SBool})
+		// errors.Is on a joined error: whatever a joined (non-nil) element matches, the join matches
+		u.declareFun("err_is", []Sort{SInt, SInt}, SBool)
+		c.define(Term{fmt.Sprintf("(forall ((i! Int) (y! Int)) (! (=> (and (<= 0 i!) (< i! %s) (err_is (select %s (idx %s i!)) y!)) (err_is %s y!)) :pattern ((err_is (select %s (idx %s i!)) y!))))",
+			sLen(sl).S, arr.S, sOff(sl).S, e.S, arr.S, sOff(sl).S), SBool})
 		setResult(Val{kind: vTerm, t: e})
 		return true
 	case "(encoding/binary.bigEndian).Uint16", "(encoding/binary.littleEndian).Uint16",
@@ -482,6 +486,8 @@ func (c *FnCtx) wrapFacts(e Term, common *ssa.CallCommon, st *State) {
 			w := c.term(src)
 			c.define(mk(SBool, "err_wraps", e, w))
 			c.define(implies(not(eq(w, tZero)), mk(SBool, "err_is", e, w)))
+			// errors.Is follows the chain: whatever the wrapped error matches, the wrapper matches
+			c.define(Term{fmt.Sprintf("(forall ((y! Int)) (! (=> (err_is %s y!) (err_is %s y!)) :pattern ((err_is %s y!))))", w.S, e.S, w.S), SBool})
 		}
 	}
 }
